@@ -5,6 +5,7 @@
     Search/Rules.v (tied to search.cpp by the per-node trace certificates of hook H3). *)
 From Coq Require Import ZArith List Bool.
 From Texel Require Import Search.Score Search.ScoreFacts Search.Game Search.GameFacts Search.Rules Search.RulesSound.
+From Texel Require Search.RulesExamples.   (* non-vacuity examples, checked with the theorems *)
 Import ListNotations.
 Local Open Scope Z_scope.
 
@@ -73,3 +74,70 @@ Theorem C04_announced_loss_real : forall (pos : Type) (moves : pos -> list pos) 
   loses moves in_check (Z.to_nat (2 * N)) root.
 Proof. exact announced_loss_real. Qed.
 Print Assumptions C04_announced_loss_real.
+
+(** mate in one: if the search of a mating root move returned the mated score (what the code
+    returns at a checkmated node unless a repetition claim, a table hit or mate-distance pruning
+    cuts the node short), the iteration's best score is exactly "mate 1", and every root move
+    reported with that score as exact or lower bound delivers checkmate *)
+From Texel Require Import Search.MateInOne.
+Theorem C04_mate_in_one_found_partial : forall (pos : Type) (moves : pos -> list pos) (in_check : pos -> bool)
+    root res best m,
+  iteration_ok pos moves in_check root res ->
+  In m res -> checkmated moves in_check (rr_pos pos m) -> rr_s pos m = mated_score 1 ->
+  is_best pos res best ->
+  (forall r, In r res -> - rr_s pos r = best -> rr_s pos r < rr_b pos r ->
+     best = MATE0 - 2 /\ mate_of_score best = Some 1 /\ checkmated moves in_check (rr_pos pos r)) /\
+  MATE0 - 2 <= best.
+Proof. exact mate_in_one_partial. Qed.
+Print Assumptions C04_mate_in_one_found_partial.
+
+(** full statement (not proved: needs a completeness model of the control flow; tested by the
+    finder on mate-in-one positions of all kinds at every completed depth) *)
+Definition C04_mate_in_one_found_statement : Prop :=
+  forall (pos : Type) (moves : pos -> list pos) (in_check : pos -> bool),
+    mate_in_one_found_statement pos moves in_check.
+
+(** ---- the certificate checker (extracted to OCaml, run on the traces of hook H3) ---- *)
+From Coq Require Import FMapPositive.
+From Texel Require Import Search.Justify Search.JustifySound.
+
+(** a node accepted by [check_node] has a derivation in the rule system, and the table fact
+    recorded for it is a [TTFact] of its position — provided the oracle data is right
+    ([oracle_ok]) and the state consists of accepted nodes / recorded facts *)
+Theorem C04_justify_sound : forall (pos : Type) (moves : pos -> list pos) (in_check : pos -> bool)
+    (posOf keyPos : positive -> pos) acc st id n o,
+  acc_ok pos moves in_check posOf acc -> st_ok pos moves in_check keyPos st ->
+  oracle_ok pos moves in_check posOf keyPos id n o ->
+  check_node acc st n o = true ->
+  Node moves in_check (posOf id) (r_ply n) (r_a n) (r_b n) (r_s n) /\
+  (forall e, store_of n = Some e -> TTFact moves in_check (keyPos (r_key n)) (fst e) (snd e)).
+Proof. exact check_node_sound. Qed.
+Print Assumptions C04_justify_sound.
+
+(** every node accepted while checking a whole trace from the empty state returned a sound
+    result (rejected nodes leave the state unchanged and are reported) *)
+Theorem C04_certificate_sound : forall (pos : Type) (moves : pos -> list pos) (in_check : pos -> bool)
+    (posOf keyPos : positive -> pos) items id r,
+  Forall (fun it => oracle_ok pos moves in_check posOf keyPos (fst (fst it)) (snd (fst it)) (snd it)) items ->
+  PositiveMap.find id (fst (run items (PositiveMap.empty nrec) (PositiveMap.empty (list (Z * Z))))) = Some r ->
+  (r_a r < r_s r -> win_bound moves in_check (r_s r) (r_ply r) (posOf id)) /\
+  (r_s r < r_b r -> lose_bound moves in_check (r_s r) (r_ply r) (posOf id)).
+Proof. exact certificate_sound. Qed.
+Print Assumptions C04_certificate_sound.
+
+(** the root checks imply the premises of the root theorems *)
+Theorem C04_root_win_certificate : forall (pos : Type) (moves : pos -> list pos) (in_check : pos -> bool)
+    (posOf : positive -> pos) acc root cid alpha beta score N,
+  acc_ok pos moves in_check posOf acc -> In (posOf cid) (moves root) ->
+  check_root_win acc cid alpha beta score N = true ->
+  loses moves in_check (Z.to_nat (2 * (N - 1))) (posOf cid) /\ wins moves in_check (Z.to_nat (2 * N - 1)) root.
+Proof. exact check_root_win_sound. Qed.
+Print Assumptions C04_root_win_certificate.
+
+Theorem C04_root_loss_certificate : forall (pos : Type) (moves : pos -> list pos) (in_check : pos -> bool)
+    (posOf : positive -> pos) acc root o score N,
+  acc_ok pos moves in_check posOf acc -> links pos moves posOf root (o_moves o) ->
+  check_root_loss acc o score N = true ->
+  loses moves in_check (Z.to_nat (2 * N)) root.
+Proof. exact check_root_loss_sound. Qed.
+Print Assumptions C04_root_loss_certificate.
